@@ -34,6 +34,7 @@ func init() {
 		Rules: []Rule{
 			{Name: "A3", Doc: "identifier fields of trips and vehicles are bound to their own wire fields: which entities are one vehicle (and get linked) is decided on id, label and licence plate as sent", MinInstances: 35, Run: runWireTable},
 			{Name: "LINK", Doc: "trip<->vehicle link discipline", MinInstances: 5, Run: runLinkRules},
+			{Name: "MERGE", Doc: "the objects the cross pointers lead to are the accumulators, one per whole identifier: every parsed trip / identified vehicle is merged into the entry looked up under its own id (a shortened or re-derived key lets two vehicles share one entry, and both trips then point at the same vehicle)", MinInstances: 7, Run: runMergeRules},
 			{Name: "GUARD", Doc: "entity parsers return nil only for absent wire fields", MinInstances: 2, Run: runParserGuards},
 		},
 	})
